@@ -187,12 +187,16 @@ def run(rep, tier, build, replay=None):
                                 ['n', 's', []], ['v', 'be', ['is', 'was']],
                                 ['a', 'Polish', []], ['v', 'polish', []], ['n', 'example', []], ['n', 'Reading', []], ['v', 'read', []],
                                 ['v', 'saw', []], ['v', 'see', ['saw', 'seen']], ['v', 'lay', []], ['v', 'lie', ['lay', 'lain']],
-                                ['n', 'data', []], ['n', 'datum', ['data']]],
+                                ['n', 'data', []], ['n', 'datum', ['data']],
+                                # words in parts of speech Morphy has no rules for, spelled like words it does know: an
+                                # initialized Morphy never proposes them, so a search without pos must not find them
+                                ['u', 'saw', []], ['x', 'like', []], ['n', 'like', []], ['v', 'like', ['liked']],
+                                ['t', 'round', []], ['n', 'round', ['rounds']], ['u', 'rounds', []]],
                       'queries': [[f, p] for f in ['wolves', 'knives', 'better', 'axes', 'larger', 's',
                                                    'ss', 'es', 'was', 'wolf', 'men', 'xes', 'saw', 'lay', 'data', 'seen']
                                   for p in QPOS],
                       'search_queries': [[f, p] for f in ['wolves', 'knives', 'better', 'axes', 'larger', 'Polished', 'Exampled',
-                                                          'Reading', 'polished', 'saw', 'Saws']
+                                                          'Reading', 'polished', 'saw', 'Saws', 'like', 'liked', 'round', 'rounds']
                                          for p in [None, 'n', 'v', 'a', 's']]})
     if replay:
         import json
